@@ -7,7 +7,7 @@ from ..gen import elements as ge
 from ..gen import meshes as gm
 
 VALS = np.array([1.0, -1.0, 0.5, -2.0, 3.0, 0.25, 1.5])
-PCLASS = ['interior', 'interior', 'vertex', 'facet', 'boundary', 'edge', 'outside']
+PCLASS = ['interior', 'interior', 'vertex', 'facet', 'boundary', 'edge', 'outside', 'near_facet', 'barely_outside']
 
 
 @st.composite
@@ -92,6 +92,30 @@ def make_points(m, kind, pts):
             if geom.locate(m, x, tol=1e-6):
                 continue            # lies in another part of a non-convex domain: not an outside point
             out.append(('outside', x, None))
+            continue
+        if pclass in ('near_facet', 'barely_outside'):
+            # a hair (2^-24 of the cell, far above rounding, far below any sensible tolerance) off a face: inside one cell only /
+            # outside the domain.  Simplicial meshes (no internal split faces).
+            if kind not in ('tri', 'tet'):
+                continue
+            if pclass == 'near_facet':
+                inner = [(c, s) for c in range(m.nelements) for s, k in enumerate(T.cell_facets[c]) if len(T.facet_cells[k]) == 2]
+                if not inner:
+                    continue
+                c, s = inner[k1 % len(inner)]
+            else:
+                c = bcells[k1 % len(bcells)]
+                slots = [s_ for s_, k in enumerate(T.cell_facets[c]) if k in T.boundary_facets]
+                s = slots[k2 % len(slots)]
+            P = m.p[:, m.t[:, c]]
+            xf = maps.F1(kind, P, ref_point(kind, 'facet', s, k2)[:, None])[:, 0]
+            cc = P.mean(1)
+            if pclass == 'near_facet':
+                out.append(('near_facet', xf + 2.0 ** -24 * (cc - xf), c))
+            else:
+                x = xf - 2.0 ** -24 * (cc - xf)
+                if not geom.locate(m, x, tol=1e-12):
+                    out.append(('outside', x, None))
             continue
         if pclass == 'boundary':
             c = bcells[k1 % len(bcells)]
